@@ -33,9 +33,9 @@ type Delivered struct {
 
 // RecvConfig configures the model.
 type RecvConfig struct {
-	Role        Role  // role of the RECEIVING endpoint (a server expects masked frames)
-	Limit       int64 // read limit on a message's wire payload; 0 = unlimited
-	Compression bool  // permessage-deflate negotiated
+	Role        Role                              // role of the RECEIVING endpoint (a server expects masked frames)
+	Limit       int64                             // read limit on a message's wire payload; 0 = unlimited
+	Compression bool                              // permessage-deflate negotiated
 	InflateFn   func(wire []byte) ([]byte, error) // optional replacement for Inflate (e.g. a memoising wrapper)
 }
 
